@@ -139,6 +139,10 @@ func GHASH(H []byte, A []byte, C []byte) (X []byte) {
 	n := len(C) / BlockSize
 	u := (len(C) % BlockSize)
 	n, u = calculm_v(n, u)
+	if len(C) == 0 {
+		// no ciphertext block at all (an empty C must not add a zero block)
+		n = 0
+	}
 
 	//i=0
 	X = make([]byte, BlockSize*(m+n+2)) //X0 = 0
@@ -164,11 +168,13 @@ func GHASH(H []byte, A []byte, C []byte) (X []byte) {
 	}
 
 	//i=m+n
-	zeros = make([]byte, (128-u)/8)
-	Cn := make([]byte, u/8)
-	copy(Cn[:], C[(n-1)*BlockSize:])
-	Cn = append(Cn, zeros...)
-	copy(X[(m+n)*BlockSize:(m+n)*BlockSize+BlockSize], multiplication(addition(X[(m+n-1)*BlockSize:(m+n-1)*BlockSize+BlockSize], Cn), H))
+	if n > 0 {
+		zeros = make([]byte, (128-u)/8)
+		Cn := make([]byte, u/8)
+		copy(Cn[:], C[(n-1)*BlockSize:])
+		Cn = append(Cn, zeros...)
+		copy(X[(m+n)*BlockSize:(m+n)*BlockSize+BlockSize], multiplication(addition(X[(m+n-1)*BlockSize:(m+n-1)*BlockSize+BlockSize], Cn), H))
+	}
 
 	//i=m+n+1
 	var lenAB []byte
@@ -184,8 +190,8 @@ func GHASH(H []byte, A []byte, C []byte) (X []byte) {
 		data[7] = byte((len >> 0) & 0xff)
 		return data
 	}
-	lenAB = append(lenAB, calculateLenToBytes(len(A))...)
-	lenAB = append(lenAB, calculateLenToBytes(len(C))...)
+	lenAB = append(lenAB, calculateLenToBytes(len(A)*8)...)
+	lenAB = append(lenAB, calculateLenToBytes(len(C)*8)...)
 	copy(X[(m+n+1)*BlockSize:(m+n+1)*BlockSize+BlockSize], multiplication(addition(X[(m+n)*BlockSize:(m+n)*BlockSize+BlockSize], lenAB), H))
 	return X[(m+n+1)*BlockSize : (m+n+1)*BlockSize+BlockSize]
 }
